@@ -13,9 +13,9 @@ def val(f, x):
     return (f["idx"] * 37 + x * 11) % 500 + 1
 
 
-def call(f, x, ln=8):
+def call(f, x, ln=8, inv=0):
     ok = "ok" if (not f["is_result"] or x % 3 != 0) else "err"
-    return "call %d %d 0 %s %d %d 0 1" % (f["idx"], x, ok, val(f, x), ln)
+    return "call %d %d 0 %s %d %d %d 1" % (f["idx"], x, ok, val(f, x), ln, inv)
 
 
 def main():
@@ -75,6 +75,24 @@ def main():
         for pause in range(1, 4):
             special.append((f, fill, [], call(f, 0), call(f, L), pause, probes))
             special.append((f, fill, [], call(f, 0), "invw %d 0,1" % f["idx"], pause, probes))
+    # the SAME expired key looked up by both threads: one sees it expired and is parked before the purge, the other
+    # purges, recomputes and stores a fresh value
+    for f in fns:
+        if f["ttl"]:
+            L = f["limit"] or 3
+            fill = [call(f, x) for x in range(L)]
+            age = (f["ttl"] + 1) * (1 if f["fl"] == "a" else 1000)
+            for pause in range(1, 7):
+                special.append((f, fill, ["age %d 0 %d" % (f["idx"], age)], call(f, 0), call(f, 0), pause, [call(f, L + 2), call(f, 0)]))
+    # a stale refresh (invalidate_on says stale: a store REPLACING a resident entry) racing an invalidation or a store
+    for f in allf:
+        if f["fl"] == "t" or f["sig"] != 0 or f["gates"] or not f["inval_on"] or f["cache_if"] or f["ret"] != 0:
+            continue
+        L = f["limit"] or 3
+        fill = [call(f, x) for x in range(min(L, 2))]
+        for pause in range(1, 5):
+            for B in ["invw %d 0" % f["idx"], "invw %d 0,1" % f["idx"], call(f, L + 1), call(f, 0)]:
+                special.append((f, fill, [], call(f, 0, inv=1), B, pause, [call(f, L + 2), call(f, 1)]))
     # memory pressure: two concurrent stores of values that each fit max_memory alone but not together
     # (String payloads: size = 24 + length), first into an empty cache, then beside a resident entry
     for f in fns:
@@ -163,6 +181,24 @@ def main():
                     out.write("PCASE p-%d-%d f%d %s %s -\n" % (a.seed, npar, f["idx"], f["fl"], f["pol"]))
                     out.write("P %s\nA %s\nB %s\nEND\n" % (call(f, x), call(f, x), call(f, x)))
                     npar += 1
+    # a store parked INSIDE its critical section (in the user's MemoryEstimator, which the engines call under the queue
+    # lock) while another thread invalidates the cache by tag / by name or stores: the invalidation must wait and,
+    # once it has returned, nothing stored before may be left
+    nest = 0
+    with open(a.out, "a") as out:
+        for f in allf:
+            if f["ret"] == 5 and f["fl"] != "t":
+                # two keys whose values fit max_memory together (a Weighted value v occupies 24 + 16 * (v mod 7) bytes)
+                wsize = lambda x: 24 + 16 * (val(f, x) % 7)
+                pairs = [(x0, x1) for x0 in range(10) for x1 in range(10) if x0 != x1 and wsize(x0) + wsize(x1) <= (f["mem"] or 10 ** 9)]
+                if not pairs:
+                    continue
+                x0, x1 = pairs[0]
+                Bs = [call(f, x0), "invw %d %d" % (f["idx"], x0), "invc %d" % f["idx"]] + (["tag %s" % f["tags"][0]] if f["tags"] else [])
+                for B in Bs:
+                    out.write("PCASE e-%d-%d f%d %s %s -\n" % (a.seed, nest, f["idx"], f["fl"], f["pol"]))
+                    out.write("P %s\nA %s\nB %s\nEND\n" % (call(f, x0), call(f, x1), B))
+                    nest += 1
     # free-running threads (real parallelism): quiescent consistency and exact statistics
     nstress = 0
     with open(a.out, "a") as out:
@@ -182,7 +218,7 @@ def main():
                 break
             out.write("STRESS st-%d-r%d f%d 4 %d 0 0 race\nEND\n" % (a.seed, nrace, f["idx"], 400 if a.count > 0 else 3000))
             nrace += 1
-    json.dump(dict(schedules=len(cases) + npar + nstress + ntri + nrace + nds, double_store_schedules=nds, first_call_races=nrace, enumeration=total + npar + nstress + ntri + nrace + nds, overlapping_lookups=npar,
+    json.dump(dict(schedules=len(cases) + npar + nstress + ntri + nrace + nds + nest, parked_in_estimator=nest, double_store_schedules=nds, first_call_races=nrace, enumeration=total + npar + nstress + ntri + nrace + nds + nest, overlapping_lookups=npar,
                    three_caller_schedules=ntri,
                    stress_runs=nstress, op_pairs=hist), sys.stdout)
 
